@@ -32,13 +32,17 @@ PbName(v, i) == "~P" \o ToString(v) \o "." \o ToString(i) \o "~"
 PbText(c, v, r) ==
   LET i == ValIdx(c, v, r) IN
     IF c.div = "second" /\ v = c.nlev /\ i = 2 THEN "-----"
+    \* "resume": the value after the divider group has the text shown before it (X, -----, X, Y, ...)
+    ELSE IF c.div = "resume" /\ v = c.nlev THEN (IF i = 2 THEN "-----" ELSE IF i >= 3 THEN PbName(v, i - 2) ELSE PbName(v, 1))
+    \* "cycle": no dividers; at every level two names alternate, so a key comes back after another one (A, B, A)
+    ELSE IF c.div = "cycle" THEN PbName(v, ((i - 1) % 2) + 1)
     ELSE IF c.div = "outer" /\ v < c.nlev /\ i = 2 THEN "-----"
     ELSE IF c.div = "first" /\ v = c.nlev /\ c.nlev >= 2 /\ ValIdx(c, v - 1, r) >= 2
          THEN (IF i = 1 THEN "-----" ELSE PbName(v, i - 1))
     ELSE PbName(v, i)
 RECURSIVE CountTrue(_, _)
 CountTrue(s, r) == IF r = 0 THEN 0 ELSE (IF s[r] THEN 1 ELSE 0) + CountTrue(s, r - 1)
-SubText(c, r) == "~S" \o ToString(CountTrue(c.schg, r)) \o "~"
+SubText(c, r) == LET i == CountTrue(c.schg, r) IN "~S" \o ToString(IF c.div = "cycle" THEN ((i - 1) % 2) + 1 ELSE i) \o "~"
 
 Derive(c) ==
   c @@ [haspb |-> HasPB(c), hassub |-> HasSub(c),
